@@ -523,6 +523,10 @@ func genE2ECases(r *vf.Run, limit int) []*e2eCase {
 		add(&e2eCase{class: "valid-open", id: genID(rng, n, tag), payload: randBytes(rng, rng.IntN(64)), chunk: kinds[i%len(kinds)]})
 		add(&e2eCase{class: "valid-raw", id: genID(rng, n, tag+"r"), payload: randBytes(rng, rng.IntN(64)), chunk: kinds[(i+3)%len(kinds)], via: 1 + i%(nLinks-1)})
 	}
+	for i, sid := range specialIDs {
+		add(&e2eCase{class: "valid-open", id: []byte(sid), payload: randBytes(rng, 7), chunk: kinds[i%len(kinds)]})
+		add(&e2eCase{class: "valid-raw", id: []byte(sid), payload: randBytes(rng, 7), chunk: kinds[(i+1)%len(kinds)], via: 1 + i%(nLinks-1)})
+	}
 	add(&e2eCase{class: "valid-open", id: genID(rng, 9, "ewd-o/"), chunk: "all", ewd: true})
 	add(&e2eCase{class: "valid-raw", id: genID(rng, 9, "ewd-r/"), chunk: "all", ewd: true, via: 1})
 	add(&e2eCase{class: "valid-raw", id: genID(rng, 1, ""), chunk: "all", ewd: true, via: 2})
